@@ -3,6 +3,7 @@ import Pyunicorn.Lemmas.MpiProto
 import Pyunicorn.Lemmas.MpiChunk
 import Pyunicorn.Lemmas.MpiTerm
 import Pyunicorn.Lemmas.MpiErr
+import Pyunicorn.Lemmas.MpiCount
 import Pyunicorn.Lemmas.MpiPool
 import Pyunicorn.Model.MpiKernels
 import Pyunicorn.Generated.ArithC19
@@ -1252,6 +1253,146 @@ example :
     (run (fun x : Nat => x) (init (β := Nat) 1
       [.submit 0 7 1 none, .submit 1 8 1 none, .get 1]) [0, 0, 0]).got = [(1, 8)] :=
   ⟨by decide, rfl, by decide, by decide, by decide⟩
+
+/-! ### round 5c: the exact step count of a run that does not raise
+
+Round 5 proved the bound `2·|prog| + size + 1`.  Exactly: a completed run makes one step per
+call of `master()`, one for the `terminate()` of `run()`, and — with slaves — one `serve()`
+iteration per `submit_call` and one per slave for the terminate tuple:
+`|prog| + #submits + size` (`|prog| + 1` in the single-process mode). -/
+
+/-- **one step, one unit**: in every state nothing was ever sent to rank 0 in (`CInv`, an
+invariant of every run from `init`), every executed step of any rank that does not raise
+decreases `stepsLeft` by exactly one. -/
+theorem nonraising_step_counts_one (f : α → β) (st st' : State α β) (c : Nat) (hc : CInv st)
+    (h : step f st c = some st') (herr : st'.err = none) : stepsLeft st' + 1 = stepsLeft st :=
+  (stepsLeft_step f st st' c hc h herr).1
+
+/-- **exact accounting of every schedule** (fair or not, complete or not, any size, any
+program): if no call has raised, executed steps + `stepsLeft` of the state reached
+= `exactSteps size prog`. -/
+theorem schedule_exact_accounting (f : α → β) (size : Nat) (prog : List (Op α)) (cs : List Nat)
+    (herr : (run f (init (β := β) size prog) cs).err = none) :
+    executed f (init (β := β) size prog) cs + stepsLeft (run f (init (β := β) size prog) cs) =
+      exactSteps size prog := by
+  rw [← stepsLeft_init (β := β) size prog]
+  exact (executed_add_stepsLeft f cs _ (cinv_init size prog) herr).1
+
+/-- **exact step count with slaves**: every program, every fair schedule of at least
+`2·|prog| + size + 1` rounds: if no call raised, `run()` has returned, every channel
+master → slave is empty, and exactly `|prog| + #submits + size` steps were executed. -/
+theorem completed_run_exact_steps (f : α → β) (size : Nat) (hsize : 2 ≤ size) (prog : List (Op α))
+    (bs : List (List Nat)) (hfair : ∀ b ∈ bs, fairBlock size b)
+    (hlen : 2 * prog.length + size + 1 ≤ bs.length)
+    (herr : (run f (init (β := β) size prog) bs.flatten).err = none) :
+    let st := run f (init (β := β) size prog) bs.flatten
+    st.finished = true ∧ inboxTotal st = 0 ∧
+    executed f (init (β := β) size prog) bs.flatten = prog.length + nSubmits prog + size := by
+  intro st
+  obtain ⟨hq, hdone, _⟩ := fair_schedule_completes f size hsize prog bs hfair hlen
+  have hfin : st.finished = true := by
+    rcases hdone with h | h
+    · exact h
+    · have : st.err.isSome = true := h
+      rw [herr] at this; cases this
+  obtain ⟨hacc, hc⟩ := executed_add_stepsLeft f bs.flatten _ (cinv_init (β := β) size prog) herr
+  have ht := tinv2_run f prog bs.flatten _ (inv_init f size prog hsize) (tinv2_init size prog)
+  have hz : inboxTotal st = 0 := quiescent_inbox_empty f st hc ht hq hfin
+  have hs0 : stepsLeft st = 0 := by rw [stepsLeft_dead st (Or.inl hfin)]; exact hz
+  refine ⟨hfin, hz, ?_⟩
+  have hi := stepsLeft_init (β := β) size prog
+  simp only [exactSteps, if_pos hsize] at hi
+  have hs0' : stepsLeft (run f (init (β := β) size prog) bs.flatten) = 0 := hs0
+  omega
+
+/-- **exact step count in the single-process mode**: `|prog| + 1`. -/
+theorem completed_run_exact_steps_serial (f : α → β) (size : Nat) (hsize : size < 2)
+    (prog : List (Op α)) (bs : List (List Nat)) (hfair : ∀ b ∈ bs, fairBlock size b)
+    (hlen : 2 * prog.length + size + 1 ≤ bs.length)
+    (herr : (run f (init (β := β) size prog) bs.flatten).err = none) :
+    let st := run f (init (β := β) size prog) bs.flatten
+    st.finished = true ∧
+    executed f (init (β := β) size prog) bs.flatten = prog.length + 1 := by
+  intro st
+  obtain ⟨_, hdone⟩ := fair_schedule_completes_serial f size hsize prog bs hfair hlen
+  have hfin : st.finished = true := by
+    rcases hdone with h | h
+    · exact h
+    · have : st.err.isSome = true := h
+      rw [herr] at this; cases this
+  obtain ⟨hacc, hc⟩ := executed_add_stepsLeft f bs.flatten _ (cinv_init (β := β) size prog) herr
+  have hsz : st.size = size := size_run f _ _
+  have hz : inboxTotal st = 0 := inbox_empty_serial st hc (by rw [hsz]; exact hsize)
+  have hs0 : stepsLeft (run f (init (β := β) size prog) bs.flatten) = 0 := by
+    rw [stepsLeft_dead st (Or.inl hfin)]; exact hz
+  refine ⟨hfin, ?_⟩
+  have hi := stepsLeft_init (β := β) size prog
+  have hns : ¬ 2 ≤ size := by omega
+  simp only [exactSteps, if_neg hns] at hi
+  omega
+
+/-- **in-order programs take exactly `|prog| + #submits + size` steps** under every fair
+schedule, with any number of slaves, any time estimates and `slave=` arguments. -/
+theorem inorder_fair_run_exact_steps (f : α → β) (size : Nat) (hsize : 2 ≤ size)
+    (prog : List (Op α)) (hio : inOrder [] prog = true) (bs : List (List Nat))
+    (hfair : ∀ b ∈ bs, fairBlock size b) (hlen : 2 * prog.length + size + 1 ≤ bs.length) :
+    executed f (init (β := β) size prog) bs.flatten = prog.length + nSubmits prog + size :=
+  (completed_run_exact_steps f size hsize prog bs hfair hlen
+    (inorder_never_raises f size hsize prog hio bs.flatten)).2.2
+
+theorem nSubmits_append (a b : List (Op α)) : nSubmits (a ++ b) = nSubmits a + nSubmits b := by
+  induction a with
+  | nil => simp [nSubmits]
+  | cons x t ih => cases x <;> simp [nSubmits, ih] <;> omega
+
+theorem nSubmits_masterProg (parts : Nat) (payload : Nat → α) (est : Nat → Int) :
+    nSubmits (masterProg parts payload est) = parts := by
+  have h1 : ∀ l : List Nat,
+      nSubmits (l.map (fun i => Op.submit i (payload i) (est i) none)) = l.length := by
+    intro l; induction l with
+    | nil => rfl
+    | cons x t ih => simp [nSubmits, ih]
+  have h2 : ∀ l : List Nat, nSubmits (α := α) (l.map (fun i => Op.get i)) = 0 := by
+    intro l; induction l with
+    | nil => rfl
+    | cons x t ih => simp [nSubmits, ih]
+  simp [masterProg, nSubmits_append, h1, h2]
+
+/-- **the master loops of the three measures take exactly `3·parts + size` steps**
+(`parts` × `submit_call`, `parts` × `get_result`, `terminate()`, `parts` `serve()` iterations
+with a call, `size - 1` with the terminate tuple). -/
+theorem master_loop_exact_steps (f : α → β) (size : Nat) (hsize : 2 ≤ size) (parts : Nat)
+    (payload : Nat → α) (est : Nat → Int) (bs : List (List Nat))
+    (hfair : ∀ b ∈ bs, fairBlock size b) (hlen : 4 * parts + size + 1 ≤ bs.length) :
+    executed f (init (β := β) size (masterProg parts payload est)) bs.flatten =
+      3 * parts + size := by
+  obtain ⟨herr, _⟩ := master_loop_correct f size hsize parts payload est bs.flatten
+  have hl : 2 * (masterProg parts payload est).length + size + 1 ≤ bs.length := by
+    simp only [masterProg, List.length_append, List.length_map, List.length_range]
+    omega
+  have := (completed_run_exact_steps f size hsize _ bs hfair hl herr).2.2
+  rw [this, nSubmits_masterProg]
+  simp only [masterProg, List.length_append, List.length_map, List.length_range]
+  omega
+
+/-- non-vacuity and sharpness: 3 ranks, 2 chunks, 12 round-robin rounds: 9 = 3·2 + 3 steps
+(the round-5 bound is 12); a run that raises stops early (2 < 6); a schedule cut short
+leaves exactly the difference in `stepsLeft`; single-process mode: `|prog| + 1` -/
+example :
+    let prog := masterProg 2 (fun i => i + 5) (fun _ => (1 : Int))
+    let st0 := init (β := Nat) 3 prog
+    executed (fun x : Nat => x * x) st0 (List.replicate 12 [0, 1, 2]).flatten = 9 ∧
+    exactSteps 3 prog = 9 ∧ stepsLeft st0 = 9 ∧ nSubmits prog = 2 ∧
+    stepsLeft (run (fun x : Nat => x * x) st0 (List.replicate 12 [0, 1, 2]).flatten) = 0 ∧
+    executed (fun x : Nat => x * x) st0 [0, 0, 1, 1] = 3 ∧
+    stepsLeft (run (fun x : Nat => x * x) st0 [0, 0, 1, 1]) = 6 ∧
+    executed (fun x : Nat => x) (init (β := Nat) 3 [.submit 0 7 1 none, .get 4])
+      (List.replicate 6 [0, 1, 2]).flatten = 3 ∧
+    exactSteps 3 [Op.submit 0 7 1 none, Op.get 4] = 6 ∧
+    executed (fun x : Nat => x * x) (init (β := Nat) 1 prog)
+      (List.replicate 12 [0]).flatten = 5 :=
+  ⟨by decide, by decide, by decide, by decide, by decide, by decide, by decide, by decide,
+    by decide, by decide⟩
 
 end Pyunicorn.MpiProto
 
